@@ -3,7 +3,8 @@ CONSTANT K3 = 3
 CONSTANT K4 = 2
 CONSTANT K5 = 1
 CONSTANT DeepN = 3
-CONSTANT DeepK = 0
+CONSTANT DeepK = 5
+CONSTANT DeepMinLinks = 2
 CONSTANT Mode = "cases"
 INIT Init
 NEXT Next
